@@ -25,7 +25,7 @@ ASSUMPTIONS = [
 ]
 MIN_COUNTERS = {
     "quick": {"runs": 8000, "programs": 150, "scenario_form_runs": 500, "handler_entered": 2000, "guard_outcomes": 300, "abort_used": 100, "break_or_continue_used": 50, "nested_try_programs": 30},
-    "thorough": {"runs": 200000, "programs": 3000, "handler_entered": 50000, "guard_outcomes": 6000, "abort_used": 2000, "break_or_continue_used": 1000, "nested_try_programs": 600},
+    "thorough": {"runs": 100000, "programs": 1800, "handler_entered": 30000, "guard_outcomes": 6000, "abort_used": 2000, "break_or_continue_used": 1000, "nested_try_programs": 600},
 }
 MANIFEST_ENTRY = {
     "technique": "runtime monitoring: action/event history of real simulations checked against an executable reference interpreter of the documented interrupt and guard semantics",
@@ -432,9 +432,9 @@ def compare(m, r):
 
 
 def plan(tier, seed):
-    n_prog = 192 if tier == "quick" else 4000
+    n_prog = 192 if tier == "quick" else 2048
     n_sh = 16 if tier == "quick" else 64
-    return [{"shard": i, "programs": n_prog // n_sh, "scenario_programs": 3 if tier == "quick" else 12, "tables": 48 if tier == "quick" else 96, "timeout": 1500 if tier == "quick" else 3400} for i in range(n_sh)]
+    return [{"shard": i, "programs": n_prog // n_sh, "scenario_programs": 3 if tier == "quick" else 12, "tables": 48 if tier == "quick" else 64, "timeout": 1500 if tier == "quick" else 3400} for i in range(n_sh)]
 
 
 def _uses(prog, kinds):
